@@ -10,8 +10,9 @@
     time field is [pub] ([with_time]); everything that looks at a component's own clock (next time, least-advanced
     selection, end of the run) uses the clock state.  For [pe] = all 1 this is FV.Sched itself.
 
-    The theorems of the development are about FV.Sched (dense publication); this generalisation is tied to the code
-    by the correspondence check only (C01). *)
+    Most theorems of the development are about FV.Sched (dense publication); for this generalisation
+    FVP.SchedSparse_proofs shows that it IS FV.Sched when all periods are 1, and FVP.SparseC01_proofs proves C01 (no pull
+    of any update fails for lack of data) for all periods. *)
 From Coq Require Import List ZArith Bool Arith.
 From FV Require Import Base Sched.
 Import ListNotations.
